@@ -23,16 +23,19 @@ import c16_objmodel as om
 INST = os.path.join(HERE, "c18_inst.C")
 LIB_DIRS = ["src/kernel/gmp++", "src/kernel/integer", "src/kernel/rational", "src/kernel/memory", "src/kernel/system", "src/kernel/bstruct"]
 SKIP_C = {"gmp++_int.C"}              # only #includes the other gmp++_int_*.C files
-VERSION = "c18-values-v4"
+VERSION = "c18-values-v8"
 
 # ---- what a write to a static may be.  Anything that is not matched here is reported (site = the function, klass = the statics).
 # (regular expression on "Class::function", set of statics or None = any, category, reason)
 DOCUMENTED_WRITERS = [
     (r"^Rational::Set(No)?Reduce$", {"flags"}, "setter", "documented user-level switch of the reduction mode (Rational::flags)"),
     (r"^rmint::init_module$", {"p", "p1", "r"}, "setter", "documented module setter of rmint<K,MG> (the modulus is a class static)"),
-    (r"^(Givaro_RecInt::)?srand$", {"rand_gen"}, "random", "seeds RecInt's generator (random state: excluded by the property text)"),
+    (r"^StaticElement::setDomain$", {"_domain"}, "setter", "documented: the domain of StaticElement<D> is a class static set by setDomain"),
+    (r"^(Givaro_RecInt::)?srand$", {"rand_gen", "libc:srand"}, "random", "seeds RecInt's generator (random state: excluded by the property text)"),
     (r"^(ruint|rint|rmint|Givaro_RecInt)?(::)?(rand|random)$", {"rand_gen"}, "random", "advances RecInt's generator (random state: excluded by the property text)"),
     (r"^Integer::(seeding|random\w*|nonzerorandom\w*|random_\w+|nonzerorandom_\w+)$", {"randstate"}, "random", "GMP random state behind Integer::random (excluded by the property text)"),
+    (r"^GivRandom::", {"_seed"}, "random", "GivRandom advances its own seed from const members: a generator object is random state, not a domain"),
+    (r"^Poly1FactorDom::", {"_g", "randstate", "_seed"}, "random", "randomised algorithms of the factorisation domain advance its generator member _g (outside the claim)"),
     (r"^Integer::randomInit$|^Integer::random_generator$", {"randstate"}, "random", "GMP random state behind Integer::random (excluded by the property text)"),
     (r"^(GivMMFreeList|GivMMRefCount|GivMemory|BlocFreeList|GivMMInfo|GivaroMM|GivMM\w*)::", None, "allocator", "GivMM free lists (process-wide allocator state: excluded by the property text)"),
     (r"^(GivaroMain|GivaroAppli|GivModule|InitAfter|ObjectInit)::|^\w+::(Init|End)$", None, "startup", "library start-up / shut-down (GivaroMain::Init/End, module table): single-threaded by contract"),
@@ -42,7 +45,8 @@ IGNORED = set(om.IGNORED_GLOBALS)
 EXCLUDED = dict(om.EXCLUDED_GLOBALS)
 EXCLUDED["tabphy"] = "allocator statistics of the free lists (process-wide allocator state)"
 EXCLUDED["info"] = "allocator statistics of the free lists (process-wide allocator state)"
-RANDOM_STATICS = {"randstate", "rand_gen"}
+RANDOM_STATICS = {"randstate", "rand_gen", "libc:rand", "libc:srand", "libc:random", "libc:srandom", "libc:drand48", "libc:lrand48", "libc:srand48",
+                  "libc:gmp_randseed", "libc:gmp_randseed_ui"}
 
 
 def lib_sources():
@@ -59,14 +63,17 @@ def lib_sources():
 
 
 def cache_key():
-    return vf.file_hash(vf.repo_sources() + [INST, os.path.join(HERE, "c18_values.h"), os.path.abspath(__file__), om.__file__], VERSION)
+    return vf.file_hash(vf.repo_sources() + [INST, om.INST, os.path.join(HERE, "c18_values.h"), os.path.abspath(__file__), om.__file__], VERSION)
 
 
-def dump_ast(cdir):
+def dump_ast(cdir, with_domains=True):
+    """with_domains: also the instantiation unit of the object model (harness/c16_inst.C, every domain class of C16/C18)"""
     tu = os.path.join(cdir, "tu-%d.C" % os.getpid())
     with open(tu, "w") as f:
         for s in lib_sources():
             f.write('#include "%s"\n' % s)
+        if with_domains:
+            f.write('#include "%s"\n' % om.INST)
         f.write('#include "%s"\n' % INST)
     cmd = ["clang++", "-std=gnu++11"] + vf.inc_flags() + ["-I" + HERE, "-DNDEBUG", "-DHAVE_CONFIG_H", "-D" + vf.GUARD, "-DRecInt=Givaro_RecInt", "-w",
            "-fsyntax-only", "-Xclang", "-ast-dump=json", "-Xclang", "-ast-dump-filter=Givaro", tu]
@@ -95,14 +102,37 @@ def dump_ast(cdir):
     return objs, p.stderr[-1000:], False
 
 
+# C library / GMP functions that read-modify-write hidden process-wide state (not thread-safe, or changing a process-wide hook)
+UNSAFE_EXTERNALS = {"rand", "srand", "random", "srandom", "drand48", "lrand48", "mrand48", "srand48", "strtok", "localtime", "gmtime", "asctime",
+                    "ctime", "setlocale", "strerror", "tmpnam", "mp_set_memory_functions", "__gmp_set_memory_functions", "setenv", "putenv",
+                    "gmp_randseed", "gmp_randseed_ui"}
+
+
 class VFnInfo(om.FnInfo):
     """the access-path classification of c16_objmodel, looking through parentheses: the context of (e) is the context of e
     (`x ^= !(Table[i])` reads Table)"""
 
     def _visit(self, n, parent):
-        if n.get("kind") == "ParenExpr":
+        k = n.get("kind")
+        if k == "ParenExpr":
             for c in om.kids(n):
                 self._visit(c, parent)
+            return
+        if k in ("CallExpr", "CXXMemberCallExpr", "CXXOperatorCallExpr"):
+            # c16_objmodel treats a receiver it cannot resolve (a call result, a conditional, a temporary: `assign(f, one) <<= k`)
+            # like the implicit `this`; here such a receiver is an operand (thread-private), only a resolved path rooted at
+            # `this` or at a static is shared state
+            cid, recv = om._callee_id(n)
+            rp = om.access_path(recv, self) if recv is not None else None
+            if recv is not None and rp is None:
+                rp = om.Path("local", "<temporary>", [], False, False)
+            ks = om.kids(n)
+            cname = om._callee_name(ks[0]) if ks else None
+            if cname in UNSAFE_EXTERNALS and (cid is None or self.idx.body(cid) is None):
+                self.effects.append({"kind": "global_write", "var": "libc:" + cname, "type": ""})
+            self.calls.append((cid, rp, cname, self._in_static_init > 0))
+            for c in ks:
+                self._visit(c, n)
             return
         om.FnInfo._visit(self, n, parent)
 
@@ -193,12 +223,17 @@ def walk_namespaces(objs):
     return nsmap
 
 
-def classify_effects(effects):
+def classify_effects(effects, const_method=False):
     """summary effects -> sorted list of (Coq constructor, static name) + via text"""
     out, via = [], {}
     for e in effects:
         k = e["kind"]
-        if k == "static_local":
+        if k == "own_write" and const_method and e.get("path"):
+            # a CONST member writing a member of its own object (mutable / cast dropping const / through a pointer member): the
+            # object may be shared (a ring, or a constant such as Integer::one)
+            nm = e["path"][0]
+            t = ("WOwn", nm)
+        elif k == "static_local":
             if not (e.get("decl") or e.get("write")):
                 continue
             nm = e["var"]
@@ -245,7 +280,12 @@ def build(log=None):
             return j, None, False
         except Exception:
             pass
-    objs, lg, timed_out = dump_ast(cdir)
+    objs, lg, timed_out = dump_ast(cdir, True)
+    domains = True
+    if objs is None and not timed_out:
+        objs, lg2, timed_out = dump_ast(cdir, False)          # the object model's unit does not compile together with ours: go on without it
+        domains = False
+        lg = lg2 if objs is None else lg
     if objs is None:
         return None, lg, timed_out
     t1 = time.time()
@@ -273,7 +313,8 @@ def build(log=None):
         ps, is_const = om.split_params(om.qt(b))
         sig = "%s(%s)%s" % (b.get("name") or "?", ",".join(om.norm(x) for x in ps), " const" if is_const else "")
         s = an.summary(b)
-        eff, via = classify_effects(s["effects"])
+        cm = b.get("kind") == "CXXMethodDecl" and is_const and b.get("storageClass") != "static"
+        eff, via = classify_effects(s["effects"], cm)
         fn = (own + "::" if own else "") + (b.get("name") or "?")
         ops.append({"fn": fn, "site": (own + "::" if own else "") + sig, "kind": b.get("kind"), "effects": [list(t) for t in eff],
                     "via": {"%s:%s" % t: v for t, v in via.items()}})
@@ -296,7 +337,7 @@ def build(log=None):
                 visit(b2, depth + 1)
     for b in fams.values():
         visit(b)
-    meta = {"cached": False, "key": key, "clang_seconds": round(t1 - t0, 2), "seconds": round(time.time() - t0, 2), "ast_objects": len(objs),
+    meta = {"cached": False, "key": key, "domain_classes_included": domains, "note": (None if domains else "harness/c16_inst.C could not be compiled in the same unit: " + lg[-300:]), "clang_seconds": round(t1 - t0, 2), "seconds": round(time.time() - t0, 2), "ast_objects": len(objs),
             "decls_indexed": len(idx.decl), "functions_with_body": len(ops), "template_patterns_skipped": npat, "families_in_dump": sorted(b.get("name") for b in fams.values()),
             "reachable_from_families": len(reach), "library_sources": [os.path.relpath(p, vf.REPO) for p in lib_sources()],
             "calls_resolved": an.stats["calls_resolved"], "calls_unresolved": an.stats["calls_unresolved"]}
@@ -341,7 +382,7 @@ def decide(res):
 
 def emit_coq(res):
     def effstr(t):
-        return "%s %s" % (t[0], om.coq_str(t[1]))
+        return "%s %s%s" % (t[0], om.coq_str(t[1]), " ViaCast" if t[0] == "WOwn" else "")
     off, doc = decide(res)
     docset = {id(o) for o, _, _ in doc}
     lines = ["(* GENERATED by harness/c18_values.py from the clang JSON AST of the library's .C files + harness/c18_inst.C, compiled against the",
